@@ -927,6 +927,12 @@ class FD:
                         if not args:
                             break
                         return self.call_function(fn, args[1:], kwargs, bound_self=args[0])
+        if name and name.count('.') == 1 and name.split('.')[0] in ('math', 'operator', 're', 'itertools', 'functools') \
+                and name.split('.')[0] not in env:
+            import importlib
+            if not hasattr(importlib.import_module(name.split('.')[0]), name.split('.')[1]):
+                # a function the standard module simply does not have (math.truncate): CPython raises AttributeError
+                raise Raised('AttributeError', "module '%s' has no attribute '%s'" % tuple(name.split('.')))
         if isinstance(e.func, ast.Attribute):
             recv = self.eval(e.func.value, env)
             args = [self.eval(a, env) for a in e.args]
